@@ -36,6 +36,7 @@ func batchDriver(param string) mc.Driver {
 		n := len(modes)
 		results := make([]string, n)
 		calls := make([]int, n)
+		txids := make([][]int, n) // transaction in which each invocation ran (shows which callers shared a batch)
 		for i := 0; i < n; i++ {
 			i := i
 			mode := modes[i]
@@ -53,6 +54,7 @@ func batchDriver(param string) mc.Driver {
 				}()
 				err := e.db.Batch(func(tx *bolt.Tx) error {
 					calls[i]++
+					txids[i] = append(txids[i], tx.ID()-e.id0)
 					b := tx.Bucket([]byte("c"))
 					v := getInt(b, string(key))
 					if v < 0 {
@@ -117,7 +119,7 @@ func batchDriver(param string) mc.Driver {
 		})
 		e.close()
 		o := e.outcome()
-		o.Obs = strings.Join(results, ",") + fmt.Sprint(calls)
+		o.Obs = strings.Join(results, ",") + fmt.Sprint(calls) + fmt.Sprint(txids)
 		return o
 	}
 }
